@@ -1,6 +1,12 @@
 import NanoVerif.Proofs.Tuner
 import NanoVerif.Proofs.Tune
+import NanoVerif.Proofs.TunerSurrogateDeriv
+import NanoVerif.Proofs.TunerSurrogateStep
+import NanoVerif.Proofs.TunerSpaceMake
+import NanoVerif.Proofs.TunerSpaceLog
+import NanoVerif.Proofs.TunerClosestTrial
 import Mathlib.Data.Int.Order.Basic
+import Mathlib.Tactic.NormNum
 /-!
   C13 — tuning evaluates grid points once and reports the true best trial: the property theorems.
 
@@ -9,7 +15,38 @@ import Mathlib.Data.Int.Order.Basic
   satisfying `SortSpec` (`std::sort`), every surrogate oracle `c.oracle` (also failing ones), every linear order of
   values, every number of grids and grid sizes, every `max_evals`, every amount of fuel; for `ml::tune` every model
   callback, every number of folds/trials and every order in which the pool runs the indices.
-  The helper lemmas are in `Proofs/Tuner.lean`, `Proofs/TunerGrid.lean`, `Proofs/Tune.lean`.
+  The helper lemmas are in `Proofs/Tuner.lean`, `Proofs/TunerGrid.lean`, `Proofs/Tune.lean`, `Proofs/TunerSurrogate*.lean`,
+  `Proofs/TunerSpace*.lean`, `Proofs/TunerClosestTrial.lean`.
+
+  ## Coverage of the anchored code (gap-closing round)
+
+  | code | status | Lean |
+  |---|---|---|
+  | tuner.cpp `tuner_t::optimize` | modelled | `Tuner.optimize`, `Tuner.tunerOptimize` (`run`, `step`, phase `coarse`) |
+  | tuner.cpp `tuner_t::tuner_t` (domain of `tuner::max_evals`) | translated | `Gen/Consts.lean` |
+  | tuner.cpp `tuner_t::all`, `clone`s of both tuners | outside | factory / clone semantics are C19 |
+  | tuner/util.cpp `make_min_igrid` `make_max_igrid` `make_avg_igrid` | modelled | `minOf` `maxOf` `avgOf` |
+  | tuner/util.cpp `map_to_grid` | modelled | `mapToGrid` |
+  | tuner/util.cpp `local_search` | modelled | `localSearch` (`combos3`, `addScaled`, `inGrid`) |
+  | tuner/util.cpp `evaluate` | modelled | `evaluate` (`std::sort` = any `SortSpec`) |
+  | tuner/local.cpp `do_optimize` | modelled | `step` / `run`, `Kind.localSearch` |
+  | tuner/surrogate.cpp `quadratic_surrogate_fit_t` ctor (feature map) | modelled | `quadTerms`, `pairIdx`, `quadLen` |
+  | tuner/surrogate.cpp `quadratic_surrogate_fit_t::do_vgrad` (loss = mse, the only one the tuner uses) | modelled | `fitValue`, `fitGrad` |
+  | tuner/surrogate.cpp `quadratic_surrogate_t` ctor | modelled | `quadSize?`, `quadDim` |
+  | tuner/surrogate.cpp `quadratic_surrogate_t::do_vgrad` | modelled | `quadValue`, `quadGrad` (same order of operations) |
+  | tuner/surrogate.cpp `surrogate_tuner_t::do_optimize` | modelled | `step` (`Kind.surrogate`) with `Cfg.oracle := surrogateCentre` (`fitData`, `toSurrogateVec`, `centreOf`) |
+  | the two `solver->minimize` (L-BFGS) calls in it | oracle | `Tuner.Solver` (no contract; monitored at run time: a run reported converged ends at a point that meets the stopping criterion for the function AS DEFINED, a state reported valid is finite, fit / minimisation alternate) |
+  | tuner/space.cpp `make_min` `make_max`, ctor | modelled | `minElem` `maxElem`, `Space.make?` |
+  | tuner/space.cpp `to_surrogate` `from_surrogate` `closest_grid_point_from_surrogate` `closest_grid_value_from_surrogate` | modelled | `Space.toSurrogate` `Space.fromSurrogate` `Space.closestGridPoint` (`closestScan`) `Space.closestGridValue`; `std::log10` / `std::pow` = class `Log10` |
+  | machine/tune.cpp `thread_callback` | modelled | `Tune.threadCallback` (`decode`, `closestTrial`, `Result.store`) |
+  | machine/tune.cpp `tuner_callback` | modelled | `Tune.runBatch` (`Result.add`, then the tasks in ANY order) |
+  | machine/tune.cpp splitter call / `pool_t::map` / `fit_params.log`, log files | oracle / outside | folds are C12's; "every index once" is C17's; logging is outside |
+  | machine/result.cpp `result_t(spaces, folds)`, `add`, `store(trial, fold, …)`, `stats(trial, …)`, `extra(trial, fold)` | modelled | `Result.empty` `Result.add` `Result.store` `Result.get?` (`slot`); the 12 statistics of `store_stats` are an opaque payload (C20) |
+  | machine/result.cpp `value`, `values`, `optimum_trial`, `closest_trial` | modelled | `Result.value`, `optimumTrial`, `closestTrial` (`argminScan`) |
+  | machine/result.cpp `store(errors_losses, extra)`, `stats(value)`, `extra()`, `log_path`, `refit_log_path`, `make_random_path` | outside | refit bookkeeping and log paths: not used by `ml::tune`'s selection |
+  | machine/params.h `params_t` | outside | a holder of tuner / solver / splitter / logger (clone semantics C19); `log` is logging |
+  | core/combinatorial.h `combinatorial_iterator_t` | modelled for the counts `(3, …, 3)` the tuners use | `combos3`; other counts outside |
+  | tuner/step.h `tuner_step_t`, `operator<` | modelled | `Step`, `SortSpec` (by value only), `step_order_strict_weak` |
 -/
 namespace NanoVerif.C13
 open NanoVerif.Tuner
@@ -296,5 +333,278 @@ example : Tune.decode 3 7 = (2, 1) ∧ Tune.slot 3 2 1 = 7 := by decide
 example : Tune.optimumTrial 100 [5, 3, 7, 3] = 1 ∧ Tune.optimumTrial 100 [100, 100] = 0 := by decide
 example : (Tune.runBatch (fun t f _ => 10 * t + f) (fun _ => 0) (Tune.Result.empty 2) 2 [3, 0, 2, 1]).slots =
     [some 0, some 1, some 10, some 11] := by decide
+
+/-! ### the quadratic surrogate: the two functions handed to L-BFGS (`Model/TunerSurrogate.lean`) -/
+
+section surrogate
+variable {α : Type} [Field α] [LinearOrder α] [IsStrictOrderedRing α]
+
+/-- the fit objective (`quadratic_surrogate_fit_t`, mse loss) along every line `x + t d` is exactly
+    value + `t`·⟨gradient as coded, d⟩ + `t²`·curvature -/
+theorem fit_expand (rows : List (List α)) (ys x d : List α) (t : α) (hrows : ∀ row ∈ rows, row.length = x.length)
+    (hd : d.length = x.length) :
+    fitValue rows ys (vline x d t) =
+      fitValue rows ys x + t * sdot (fitGrad rows ys x) d + t ^ 2 * fitCurv rows ys d :=
+  Tuner.fit_expand rows ys x d t hrows hd
+
+omit [LinearOrder α] [IsStrictOrderedRing α] in
+/-- the rows the tuner builds (`quadTerms` of points with the same number of coordinates) all have the same length -/
+theorem fit_rows_same_length (p q : List α) (h : p.length = q.length) : (quadTerms p).length = (quadTerms q).length := by
+  simp [quadTerms, h]
+
+/-- … lies above each of its tangent planes … -/
+theorem fit_above_tangent (rows : List (List α)) (ys x d : List α) (hrows : ∀ row ∈ rows, row.length = x.length)
+    (hd : d.length = x.length) :
+    fitValue rows ys x + sdot (fitGrad rows ys x) d ≤ fitValue rows ys (vline x d 1) :=
+  Tuner.fit_above_tangent rows ys x d hrows hd
+
+/-- … is convex (along every line: below the chord) … -/
+theorem fit_convex (rows : List (List α)) (ys x d : List α) (lam : α) (hrows : ∀ row ∈ rows, row.length = x.length)
+    (hd : d.length = x.length) (h0 : 0 ≤ lam) (h1 : lam ≤ 1) :
+    fitValue rows ys (vline x d lam) ≤ (1 - lam) * fitValue rows ys x + lam * fitValue rows ys (vline x d 1) :=
+  Tuner.fit_convex rows ys x d lam hrows hd h0 h1
+
+/-- … and a stationary point of it is a global minimiser: the best quadratic for the evaluated steps -/
+theorem fit_stationary_is_min (rows : List (List α)) (ys x d : List α) (hrows : ∀ row ∈ rows, row.length = x.length)
+    (hd : d.length = x.length) (hstat : ∀ g ∈ fitGrad rows ys x, g = 0) :
+    fitValue rows ys x ≤ fitValue rows ys (vline x d 1) :=
+  Tuner.fit_stationary_is_min rows ys x d hrows hd hstat
+
+/-- the fitted quadratic (`quadratic_surrogate_t`) along every line: value + `t`·⟨gradient as coded, d⟩ + `t²`·curvature -/
+theorem quad_expand (m x d : List α) (t : α) (hm : 1 + x.length ≤ m.length) (hd : d.length = x.length) :
+    quadValue m (vline x d t) = quadValue m x + t * sdot (quadGrad m x) d + t ^ 2 * quadCurv m d :=
+  Tuner.quad_expand m x d t hm hd
+
+/-- a stationary point of the fitted quadratic is a minimiser when the curvature is not negative (nothing holds
+    otherwise: the code rightly declares `convexity::no`, see the concave example below) -/
+theorem quad_stationary_is_min (m x d : List α) (hm : 1 + x.length ≤ m.length) (hd : d.length = x.length)
+    (hcurv : 0 ≤ quadCurv m d) (hstat : sdot (quadGrad m x) d = 0) :
+    quadValue m x ≤ quadValue m (vline x d 1) :=
+  Tuner.quad_stationary_is_min m x d hm hd hcurv hstat
+
+/-- the value of the fitted quadratic at `p` is the fit's output for a sample at `p` -/
+theorem quad_is_fit_output (m p : List α) (hm : 1 + p.length ≤ m.length) : quadValue m p = sdot (quadTerms p) m :=
+  Tuner.quad_is_fit_output m p hm
+
+end surrogate
+
+/-- `quadratic_surrogate_fit_t`: the gradient `do_vgrad` writes is the derivative of the value it returns (along every
+    line, as in C06) -/
+theorem fit_grad_is_deriv (rows : List (List ℝ)) (ys x d : List ℝ) (hrows : ∀ row ∈ rows, row.length = x.length)
+    (hd : d.length = x.length) :
+    HasDerivAt (fun t : ℝ => fitValue rows ys (vline x d t)) (sdot (fitGrad rows ys x) d) 0 :=
+  Tuner.fit_grad_is_deriv rows ys x d hrows hd
+
+/-- `quadratic_surrogate_t`: likewise -/
+theorem quad_grad_is_deriv (m x d : List ℝ) (hm : 1 + x.length ≤ m.length) (hd : d.length = x.length) :
+    HasDerivAt (fun t : ℝ => quadValue m (vline x d t)) (sdot (quadGrad m x) d) 0 :=
+  Tuner.quad_grad_is_deriv m x d hm hd
+
+/-- the dimension `quadratic_surrogate_t` recovers from the number of coefficients is the right one -/
+theorem quadDim_quadLen (n : Nat) : quadDim (quadLen n) = n := Tuner.quadDim_quadLen n
+
+/-- the constructor's `assert`s imply the length hypothesis of the theorems above -/
+theorem quadSize_le {α : Type} (m : List α) (n : Nat) (h : quadSize? m = some n) :
+    0 < n ∧ m.length = quadLen n ∧ 1 + n ≤ m.length := Tuner.quadSize_le m n h
+
+/-! ### parameter spaces (`param_space_t`) -/
+
+section spaces
+variable {α : Type} [Field α] [LinearOrder α] [IsStrictOrderedRing α]
+
+/-- closest-point optimality: the grid point returned is a nearest one in surrogate coordinates, and the first such -/
+theorem closest_point_optimal (top : α) (sg : List α) (v : α) (hne : sg ≠ []) (htop : ∀ g ∈ sg, |v - g| ≤ top) :
+    ∃ hb : closestScan top sg v < sg.length,
+      (∀ j (hj : j < sg.length), |v - sg[closestScan top sg v]| ≤ |v - sg[j]|) ∧
+      (∀ j (hj : j < closestScan top sg v), |v - sg[closestScan top sg v]| < |v - sg[j]'(by omega)|) :=
+  Tuner.closestScan_spec top sg v hne htop
+
+/-- round trip on grid points -/
+theorem closest_roundtrip (top : α) (sg : List α) (hinc : sg.Pairwise (· < ·)) (k : Nat) (hk : k < sg.length)
+    (htop : ∀ g ∈ sg, |sg[k] - g| ≤ top) : closestScan top sg sg[k] = k :=
+  Tuner.closestScan_roundtrip top sg hinc k hk htop
+
+/-- what the constructor's four `critical`s guarantee -/
+theorem space_make_spec (eps : α) (kind : SpaceKind) (grid : List α) (s : Space α)
+    (h : Space.make? eps kind grid = some s) :
+    s.kind = kind ∧ s.grid = grid ∧ 2 ≤ grid.length ∧ grid.Pairwise (· < ·) ∧
+      grid.head? = some s.mn ∧ grid.getLast? = some s.mx ∧ s.mn < s.mx ∧ (kind = .log10 → eps ≤ s.mn) :=
+  Tuner.make?_spec eps kind grid s h
+
+variable [Log10 α]
+
+/-- `to_surrogate` throws exactly outside `[m_min, m_max]` -/
+theorem toSurrogate_none_iff (s : Space α) (v : α) : s.toSurrogate v = none ↔ v < s.mn ∨ s.mx < v :=
+  Tuner.toSurrogate_none_iff s v
+
+/-- linear space: onto `[0, 1]` -/
+theorem toSurrogate_linear (s : Space α) (hk : s.kind = .linear) (hlt : s.mn < s.mx) (v : α) (h1 : s.mn ≤ v)
+    (h2 : v ≤ s.mx) :
+    ∃ a, s.toSurrogate v = some a ∧ 0 ≤ a ∧ a ≤ 1 ∧ a = (v - s.mn) / (s.mx - s.mn) :=
+  Tuner.toSurrogate_linear s hk hlt v h1 h2
+
+/-- linear space: strictly increasing -/
+theorem toSurrogate_linear_strictMono (s : Space α) (hk : s.kind = .linear) (hlt : s.mn < s.mx) (v w a b : α)
+    (hv : s.toSurrogate v = some a) (hw : s.toSurrogate w = some b) (hvw : v < w) : a < b :=
+  Tuner.toSurrogate_linear_strictMono s hk hlt v w a b hv hw hvw
+
+/-- `from_surrogate` answers within `[m_min, m_max]` -/
+theorem fromSurrogate_mem (s : Space α) (v : α) (h : s.mn ≤ s.mx) :
+    s.mn ≤ s.fromSurrogate v ∧ s.fromSurrogate v ≤ s.mx := Tuner.fromSurrogate_mem s v h
+
+/-- linear space: `from_surrogate ∘ to_surrogate = id` -/
+theorem fromSurrogate_toSurrogate_linear (s : Space α) (hk : s.kind = .linear) (hlt : s.mn < s.mx) (v a : α)
+    (hv : s.toSurrogate v = some a) : s.fromSurrogate a = v :=
+  Tuner.fromSurrogate_toSurrogate_linear s hk hlt v a hv
+
+/-- a space built by the constructor has surrogate coordinates for all its grid points (`to_surrogate` never throws there) -/
+theorem sgrid_isSome (eps : α) (kind : SpaceKind) (grid : List α) (s : Space α)
+    (h : Space.make? eps kind grid = some s) : ∃ sg, s.sgrid = some sg ∧ sg.length = grid.length :=
+  Tuner.sgrid_isSome eps kind grid s h
+
+/-- linear space: `closest_grid_point_from_surrogate(to_surrogate(grid value k)) = k` -/
+theorem closestGridPoint_roundtrip_linear (top : α) (s : Space α) (hk : s.kind = .linear) (hlt : s.mn < s.mx)
+    (hinc : s.grid.Pairwise (· < ·)) (sg : List α) (hsg : s.sgrid = some sg) (k : Nat) (hk' : k < sg.length)
+    (htop : ∀ g ∈ sg, |sg[k] - g| ≤ top) : s.closestGridPoint top sg[k] = some k :=
+  Tuner.closestGridPoint_roundtrip_linear top s hk hlt hinc sg hsg k hk' htop
+
+/-- whatever the solver returned, the centre derived from it is a point of the grid box -/
+theorem centreOf_inGrid (top : α) (spaces : List (Space α)) (x : List α) (c : IGrid)
+    (hne : ∀ s ∈ spaces, s.grid ≠ []) (h : centreOf top spaces x = some c) :
+    inGrid (minOf (spaces.map (·.grid.length))) (maxOf (spaces.map (·.grid.length))) c = true :=
+  Tuner.centreOf_inGrid top spaces x c hne h
+
+/-- **the surrogate tuner's batch** — the oracle is reduced to the two solver runs: the batch handed to the callback in
+    an iteration of `surrogate_tuner_t::do_optimize` is the radius-1 neighbourhood (minus the evaluated points) of the
+    grid point closest, coordinate by coordinate, to the minimiser `x` the solver returned for the quadratic `m` it had
+    fitted to the quadratic features of ALL evaluated steps and their values, started at the best step. All the
+    theorems on `optimize` above hold for this (as for every) oracle. -/
+theorem surrogate_step_centre (c : Cfg α) (top : α) (spaces : List (Space α)) (solver : Solver α)
+    (hkind : c.kind = .surrogate) (horacle : c.oracle = surrogateCentre top spaces solver)
+    (hne : ∀ s ∈ spaces, s.grid ≠ []) (st st' : St α) (hmain : st.phase = .main) (batch : List IGrid)
+    (hb : batch ≠ []) (h : step c st = .next st' batch) :
+    ∃ x0 ps m x centre,
+      fitData spaces st.steps = some (x0 :: ps, st.steps.map (·.value)) ∧
+      solver.fit ((x0 :: ps).map quadTerms) (st.steps.map (·.value)) = some m ∧ solver.opt m x0 = some x ∧
+      centreOf top spaces x = some centre ∧
+      inGrid (minOf (spaces.map (·.grid.length))) (maxOf (spaces.map (·.grid.length))) centre = true ∧
+      batch = freshOf (localSearch c.mn c.mx centre 1) st.steps :=
+  Tuner.surrogate_step_centre c top spaces solver hkind horacle hne st st' hmain batch hb h
+
+end spaces
+
+/-- log10 space over ℝ (values ≥ epsilon > 0): strictly increasing -/
+theorem toSurrogate_log10_strictMono (s : Space ℝ) (hk : s.kind = .log10) (hpos : 0 < s.mn) (v w a b : ℝ)
+    (hv : s.toSurrogate v = some a) (hw : s.toSurrogate w = some b) (hvw : v < w) : a < b :=
+  Tuner.toSurrogate_log10_strictMono s hk hpos v w a b hv hw hvw
+
+/-- log10 space: `from_surrogate ∘ to_surrogate = id` -/
+theorem fromSurrogate_toSurrogate_log10 (s : Space ℝ) (hk : s.kind = .log10) (hpos : 0 < s.mn) (v a : ℝ)
+    (hv : s.toSurrogate v = some a) : s.fromSurrogate a = v :=
+  Tuner.fromSurrogate_toSurrogate_log10 s hk hpos v a hv
+
+/-- log10 space: `closest_grid_point_from_surrogate(to_surrogate(grid value k)) = k` -/
+theorem closestGridPoint_roundtrip_log10 (top : ℝ) (s : Space ℝ) (hk : s.kind = .log10) (hpos : 0 < s.mn)
+    (hinc : s.grid.Pairwise (· < ·)) (sg : List ℝ) (hsg : s.sgrid = some sg) (k : Nat) (hk' : k < sg.length)
+    (htop : ∀ g ∈ sg, |sg[k] - g| ≤ top) : s.closestGridPoint top sg[k] = some k :=
+  Tuner.closestGridPoint_roundtrip_log10 top s hk hpos hinc sg hsg k hk' htop
+
+/-! ### warm starts of `ml::tune`: `result_t::closest_trial` -/
+
+section closest
+variable {α π : Type} [Field α] [LinearOrder α] [IsStrictOrderedRing α]
+open NanoVerif.Tune
+
+/-- `closest_trial(params, max_trials)` reads the first `max_trials` rows only -/
+theorem closestTrial_frame (top : α) (dist : π → π → α) (rows rows' : List π) (p : π) (k : Nat)
+    (h : rows.take k = rows'.take k) : closestTrial top dist rows p k = closestTrial top dist rows' p k :=
+  Tune.closestTrial_frame top dist rows rows' p k h
+
+/-- … answers a trial before `max_trials` … -/
+theorem closestTrial_lt (top : α) (dist : π → π → α) (rows : List π) (p : π) (k : Nat) (hk : 0 < k)
+    (hle : k ≤ rows.length) : closestTrial top dist rows p k < k :=
+  Tune.closestTrial_lt top dist rows p k hk hle
+
+/-- … (trial 0 when there is none: the very first batch) … -/
+theorem closestTrial_zero (top : α) (dist : π → π → α) (rows : List π) (p : π) :
+    closestTrial top dist rows p 0 = 0 := Tune.closestTrial_zero top dist rows p
+
+/-- … namely the first nearest one -/
+theorem closestTrial_nearest (top : α) (dist : π → π → α) (rows : List π) (p : π) (k : Nat) (hk : 0 < k)
+    (hle : k ≤ rows.length) (htop : ∀ row ∈ rows.take k, dist row p ≤ top) :
+    ∃ hc : closestTrial top dist rows p k < rows.length,
+      (∀ j (hj : j < k), dist rows[closestTrial top dist rows p k] p ≤ dist (rows[j]'(by omega)) p) ∧
+      (∀ j (hj : j < closestTrial top dist rows p k), dist rows[closestTrial top dist rows p k] p <
+        dist (rows[j]'(by omega)) p) :=
+  Tune.closestTrial_nearest top dist rows p k hk hle htop
+
+/-- in `ml::tune` (rows of the batch in flight already appended by `result.add`, `max_trials = old_trials > 0`) every
+    task is handed the model data of a trial of an EARLIER batch, independent of the batch in flight, read from a slot
+    no task of the batch writes -/
+theorem tune_reads_only_earlier {σ : Type} (top : α) (dist : π → π → α) (r0 : Result σ) (hwf : r0.wf) (old new : List π)
+    (hold : old.length = r0.trials) (hpos : 0 < r0.trials) (p : π) (f : Nat) :
+    closestTrial top dist (old ++ new) p r0.trials < r0.trials ∧
+    closestTrial top dist (old ++ new) p r0.trials = closestTrial top dist old p r0.trials ∧
+    (r0.add new.length).get? (closestTrial top dist (old ++ new) p r0.trials) f =
+      r0.get? (closestTrial top dist (old ++ new) p r0.trials) f :=
+  Tune.tune_reads_only_earlier top dist r0 hwf old new hold hpos p f
+
+end closest
+
+/-! ### the order of the returned steps -/
+
+/-- `operator<` of `tuner_step_t` (step.h:21-24, the value only) is a strict weak order on steps with values of a linear
+    order (what `std::sort` requires; all stored values are finite, `steps_true_values`): irreflexive, transitive, and
+    "neither is smaller" is transitive -/
+theorem step_order_strict_weak {α : Type} [LinearOrder α] (a b c : Step α) :
+    ¬ a.value < a.value ∧ (a.value < b.value → b.value < c.value → a.value < c.value) ∧
+    ((¬ a.value < b.value ∧ ¬ b.value < a.value) → (¬ b.value < c.value ∧ ¬ c.value < b.value) →
+      (¬ a.value < c.value ∧ ¬ c.value < a.value)) := by
+  refine ⟨lt_irrefl _, lt_trans, ?_⟩
+  rintro ⟨h1, h2⟩ ⟨h3, h4⟩
+  have hab : a.value = b.value := le_antisymm (not_lt.mp h2) (not_lt.mp h1)
+  have hbc : b.value = c.value := le_antisymm (not_lt.mp h4) (not_lt.mp h3)
+  rw [hab, hbc]
+  exact ⟨lt_irrefl _, lt_irrefl _⟩
+
+/-! ### non-vacuity of the new theorems -/
+
+-- the quadratic features, the fit and the fitted quadratic on concrete data (kernel-evaluated over ℤ; `1 / 2 = 0` there,
+-- so only the parts without the `0.5` of the loss)
+example : quadTerms [(2 : Int), 3] = [1, 2, 3, 4, 6, 9] := by decide
+example : pairIdx 3 = [(0, 0), (0, 1), (0, 2), (1, 1), (1, 2), (2, 2)] := by decide
+example : quadLen 1 = 3 ∧ quadLen 2 = 6 ∧ quadLen 3 = 10 ∧ quadDim 6 = 2 := ⟨by decide, by decide, by decide, quadDim_quadLen 2⟩
+example : fitGrad [[1, 0, 0], [1, 1, 1]] [(5 : Int), 7] [1, 1, 1] = [-8, -4, -4] := by decide
+-- f(x, y) = 1 + 2x + 3y + 4x² + 5xy + 6y² at (1, -1): value, gradient (2 + 8x + 5y, 3 + 5x + 12y)
+example : quadValue [(1 : Int), 2, 3, 4, 5, 6] [1, -1] = 5 ∧ quadGrad [(1 : Int), 2, 3, 4, 5, 6] [1, -1] = [5, -4] := by
+  decide
+example : quadSize? [(1 : Int), 2, 3, 4, 5, 6] = some 2 := Tuner.quadSize_quadLen _ 2 (by decide) rfl
+-- the surrogate is not convex in general: −x² is stationary at 0 and smaller everywhere else (the hypothesis `hcurv` of
+-- `quad_stationary_is_min` is necessary; on the real code the L-BFGS run then leaves towards ±1e88 and the proposed
+-- centre collapses to grid point 0 — corpus/C13/ops.txt, "concave surrogate")
+example : quadGrad [(0 : Int), 0, -1] [0] = [0] ∧ quadValue [(0 : Int), 0, -1] [1] < quadValue [(0 : Int), 0, -1] [0] ∧
+    quadCurv [(0 : Int), 0, -1] [1] < 0 := by decide
+-- the hypotheses of the expansion theorems are satisfiable (two samples at p = 0 and p = 1, one hyper-parameter)
+example : fitValue [quadTerms [0], quadTerms [1]] [(3 : ℝ), 5] (vline [1, 1, 1] [1, 0, 2] 2) =
+    fitValue [quadTerms [0], quadTerms [1]] [3, 5] [1, 1, 1] +
+      2 * sdot (fitGrad [quadTerms [0], quadTerms [1]] [3, 5] [1, 1, 1]) [1, 0, 2] +
+      2 ^ 2 * fitCurv [quadTerms [0], quadTerms [1]] [3, 5] [1, 0, 2] :=
+  fit_expand _ _ _ _ _ (by simp [quadTerms, pairIdx]) (by simp)
+example : HasDerivAt (fun t : ℝ => quadValue [1, 2, 3] (vline [4] [5] t)) (sdot (quadGrad [1, 2, 3] [4]) [5]) 0 :=
+  quad_grad_is_deriv _ _ _ (by simp) (by simp)
+-- parameter spaces: the constructor's guards, the maps, the closest grid point (ties go to the first; a distance above
+-- `top` is never selected: the hypothesis `htop` of `closest_point_optimal` is necessary)
+instance : Log10 Int := ⟨fun v => v, fun v => v⟩
+example : (Space.make? (1 : Int) .linear [0, 2, 4]).map (fun s => (s.mn, s.mx)) = some (0, 4) := by decide
+example : (Space.make? (1 : Int) .linear [0, 2, 2]).isNone ∧ (Space.make? (1 : Int) .linear [0, 3, 2]).isNone ∧
+    (Space.make? (1 : Int) .linear [7]).isNone ∧ (Space.make? (1 : Int) .log10 [0, 3]).isNone := by decide
+example : closestScan (100 : Int) [0, 2, 4] 3 = 1 ∧ closestScan (100 : Int) [0, 2, 4] 4 = 2 ∧
+    closestScan (100 : Int) [0, 2, 4] 50 = 2 ∧ closestScan (1 : Int) [5, 3] 0 = 0 := by decide
+example : centreOf (100 : Int) [⟨.log10, [1, 2, 3], 1, 3⟩, ⟨.log10, [1, 2], 1, 2⟩] [5, 1] = some [2, 0] := by decide
+example : ∃ s : Space ℝ, Space.make? (1 / 4) .log10 [1, 10] = some s :=
+  ⟨⟨.log10, [1, 10], 1, 10⟩, by norm_num [Space.make?, minElem, maxElem, isSortedL, hasAdjEq]⟩
+-- warm starts: the row of the batch in flight (distance 0) is not looked at
+example : Tune.closestTrial (100 : Int) (fun a b => (a - b) * (a - b)) [5, 1, 9, 2] 2 3 = 1 := by decide
+example : (Step.mk [0] (1 : Int)).value < (Step.mk [1] (2 : Int)).value := by decide
 
 end NanoVerif.C13
